@@ -317,6 +317,10 @@ namespace sim
 		{
 			if (m_stall_handlers.find(req.path) != m_stall_handlers.end())
 			{
+				// this request is never answered, but keep looking at the
+				// connection: another request may follow, and when the client
+				// hangs up the connection has to be closed
+				post(m_ios, std::bind(&http_server::on_read, this, error_code(), 0));
 				return;
 			}
 			// no handler found, 404
